@@ -305,6 +305,9 @@ def broken_quoted(rng):
     good += [x for x in ["'", "\"", "`"] if x != q]
     bad = ["\\q", "\\x41", "\\x", "\\xG", "\\x110000\\", "\\xD800\\", "\\8", "\\ ", "\\400000000000\\", "\x01", "\t", "\x7f", "\x00", "\\e", "\\z. "]
     parts = [rng.choice(good) for _ in range(rng.randint(0, 3))] + [rng.choice(bad)] + [rng.choice(good + bad[:6]) for _ in range(rng.randint(0, 4))]
+    if rng.random() < 0.35:
+        # an illegal piece, then a quote that does not close (doubled / escaped), then end-token-like text
+        parts = [rng.choice(good) for _ in range(rng.randint(0, 2))] + [rng.choice(bad)] + [rng.choice([q + q, "\\" + q]), rng.choice([". ", ".\t", " . "])] + [rng.choice(good) for _ in range(rng.randint(0, 2))]
     return q + "".join(parts) + q
 
 
@@ -468,8 +471,8 @@ class Runner:
                     if smodel.get("ms%d_%d" % (base + i, j)) != "%s%s:%d" % (c, kk, ln):
                         res[i]["model_segs_ok"] = "slice %d alone: %s, in the text: %s%s:%d" % (j, smodel.get("ms%d_%d" % (base + i, j)), c, kk, ln)
         impl, _ = diff.run_cases(cases, impl_env=env)
-        # retry cases whose only problem is a timeout (load), sequentially
-        flaky = [c for c in cases if any(str(impl.get(l.split("\t")[1], "missing")).startswith(("timeout", "missing")) for l in c["impl"])]
+        # retry cases that ended in a timeout / crash / failed set-up once, sequentially (load); a genuine crash persists
+        flaky = [c for c in cases if any(str(impl.get(l.split("\t")[1], "missing")).startswith(("timeout", "missing", "exception(", "error(", "panic", "abort", "skipped")) for l in c["impl"])]
         self.retried = len(flaky)
         if flaky and len(flaky) <= 40:
             e2 = dict(env or {})
@@ -618,7 +621,7 @@ def run(ctx):
         else:
             for c0 in diff.load_corpus("C17"):
                 items.append({"text": "".join(chr(c) for c in c0["cps"]), "shallow": c0.get("shallow", False), "what": c0.get("what", "corpus"), "family": "corpus"})
-            n = int(os.environ.get("C17_N", "1000" if tier == "quick" else "30000"))
+            n = int(os.environ.get("C17_N", "700" if tier == "quick" else "8000"))
             fams = [("mut", 0.47), ("qerr", 0.12), ("tail", 0.14), ("soup", 0.14), ("valid", 0.13)]
             for _ in range(n):
                 x = rng.random()
